@@ -699,8 +699,11 @@ class SVal:
         if not ends:
             return None
         out = ends[0]
+        gate = ('tryjoin', tid)
+        if len(ends) == 2 and e_body is not None and len(st.handlers) == 1:
+            gate = mk_not(('caught', tt, tid))        # one handler: the body completed iff nothing was caught
         for other in ends[1:]:
-            out = self.merge(('tryjoin', tid), out, other)
+            out = self.merge(gate, out, other)
         if st.finalbody:
             r = self.block(st.finalbody, out, pc)
             if r is None:
